@@ -707,6 +707,12 @@ fn oracle_case(seed: u64, idx: u64) -> (NodeSpec, Size<AvailableSpace>) {
         }
         let row = is_row(t.style.flex_direction);
         for ch in t.children.iter_mut() {
+            // per-axis overflow without scrollbar gutters (visible / clip / hidden, independently per axis): `hidden` on the
+            // main axis makes the item a scroll container there, whose automatic minimum size is 0 instead of content-based
+            if rng.chance(1, 4) {
+                let o = [Overflow::Visible, Overflow::Clip, Overflow::Hidden];
+                ch.style.overflow = Point { x: *rng.pick(&o), y: *rng.pick(&o) };
+            }
             ch.style.flex_grow = *rng.pick(&[0.0, 0.0, 1.0, 2.0, 2.5]);
             ch.style.flex_shrink = *rng.pick(&[0.0, 1.0, 1.0, 2.0, 2.5]);
             if wrapping || rng.chance(1, 2) {
@@ -784,8 +790,11 @@ fn item_info(nd: &Flat, l: &taffy::Layout, row: bool, inner_main: f32) -> ItemIn
     let min_style = resolve_len(pick(s.min_size), Some(inner_main));
     let max = resolve_len(pick(s.max_size), Some(inner_main));
     let size_style = resolve_len(pick(s.size), Some(inner_main));
+    let ov_main = if row { s.overflow.x } else { s.overflow.y };
     let min = match min_style {
         Some(m) => Some(m),
+        // a scroll container on the main axis has automatic minimum size 0 (CSS Flexbox 4.5; Overflow::maybe_into_automatic_min_size)
+        None if matches!(ov_main, Overflow::Hidden | Overflow::Scroll) => Some(0.0),
         None => {
             // (percentage padding/border of the item resolve to 0 while its content size is measured: not modelled here)
             let is_len = |c: taffy::CompactLength| c.tag() == taffy::CompactLength::LENGTH_TAG;
@@ -967,7 +976,9 @@ fn check_container(t: &TaffyTree<Ctx>, nodes: &[Flat], kids: &[usize], me: usize
     // explicit min-size below its padding+border is laid out larger than the size the line was balanced with
     // (same root cause when the item is a container, which is then laid out at the clamped target, below its padding+border:
     // the hypothetical size, floored by padding+border, and the loop's clamp disagree)
-    let pb_floor = infos.iter().any(|i| i.min_explicit && i.min.unwrap() < i.pb || i.max.map(|m| m < i.pb).unwrap_or(false));
+    // (also when the minimum is the automatic 0 of a scroll container: any minimum below padding+border lets the loop's target go below
+    // the size the item is laid out with)
+    let pb_floor = infos.iter().any(|i| i.min.map(|m| m < i.pb).unwrap_or(false) || i.max.map(|m| m < i.pb).unwrap_or(false));
     let tag = if pb_floor { " [known:pb-floor]" } else { "" };
     for (j, k) in flow.iter().enumerate() {
         let i = &infos[j];
